@@ -124,6 +124,14 @@ PRESERVING = [
         (A, "        bin2hex(args.output, args.output + '.hex', hex_offset)\n",
          "        bin2hex(args.output, args.output + '.hex', hex_offset)\n\n    raise SystemExit(0)\n"),
     ]),
+    ('w-cli-return-status', ['C17'], [
+        (A, '    except AssemblerError as e:\n        raise SystemExit(e)\n',
+         '    except AssemblerError as e:\n        print(e, file=sys.stderr)\n        return 1\n'),
+        (A, "        bin2hex(args.output, args.output + '.hex', hex_offset)\n",
+         "        bin2hex(args.output, args.output + '.hex', hex_offset)\n\n    return 0\n"),
+        (A, "if __name__ == '__main__':\n    cli_main()\n",
+         "if __name__ == '__main__':\n    sys.exit(cli_main())\n"),
+    ]),
     ('w-cli-compress-bool', ['C17'], [
         (A, 'compress=args.compress, include_dirs=include_dirs)',
          'compress=bool(args.compress), include_dirs=include_dirs)'),
@@ -320,14 +328,6 @@ UNDECIDED = [
          'class AliasTable:\n\n    def __init__(self, constants):\n        self.constants = constants\n\n    def __contains__(self, name):\n        return name in self.constants\n\n    def resolve(self, name):\n        return self.constants[name]\n\n\ndef resolve_register_aliases(items, constants):\n    aliases = AliasTable(constants)\n'),
         (A, '            if value not in constants:\n                continue\n            # reg IS a constant\n            modified = True\n            reg = constants[value]\n',
          '            if value not in aliases:\n                continue\n            # reg IS a constant\n            modified = True\n            reg = aliases.resolve(value)\n'),
-    ]),
-    ('w-cli-return-status', ['C17'], [
-        (A, '    except AssemblerError as e:\n        raise SystemExit(e)\n',
-         '    except AssemblerError as e:\n        print(e, file=sys.stderr)\n        return 1\n'),
-        (A, "        bin2hex(args.output, args.output + '.hex', hex_offset)\n",
-         "        bin2hex(args.output, args.output + '.hex', hex_offset)\n\n    return 0\n"),
-        (A, "if __name__ == '__main__':\n    cli_main()\n",
-         "if __name__ == '__main__':\n    sys.exit(cli_main())\n"),
     ]),
     ('w-const-name-method', ['C11'], [
         (A, '        if item.name in REGISTERS:\n            s = \'constant name cannot shadow a register name "{}"\'\n            s = s.format(item.name)\n            raise AssemblerError(s, item.line)\n\n        if is_int(item.name):\n            s = \'constant name cannot be a number "{}"\'\n            s = s.format(item.name)\n            raise AssemblerError(s, item.line)\n\n',
